@@ -353,3 +353,138 @@ def canon_body(fn, abstract=None):
             eff.append(t[0])
         lines.append("B%d: " % idx[b] + " ; ".join(eff))
     return lines
+
+
+# ------------------------------------------------------------------ slice windows
+
+INDEX_FN = re.compile(r"ops::Index(Mut)?<I> for (\[T; N\]|\[T\]|alloc::vec::Vec<T, A>)>::index(_mut)?$|slice::index::<impl core::ops::Index(Mut)?<I> for \[T\]>::index(_mut)?$")
+
+
+def window(fn, e):
+    """Decode a slice expression:  returns (base_canon, start, end) where start/end are linear
+    forms ((coeffs...), const) or None for an open end, or None if e is not a recognised window.
+    A plain reference to a buffer is (base, 0-form, None)."""
+    e0 = e
+    while isinstance(e, tuple) and e[0] in ("cast",) and e[1].startswith("PointerCoercion"):
+        e = e[2]
+    while isinstance(e, tuple) and e[0] == "ref":
+        e = e[2]
+    while isinstance(e, tuple) and e[0] == "deref":
+        e = e[1]
+    while isinstance(e, tuple) and e[0] == "ref":
+        e = e[2]
+    if isinstance(e, tuple) and e[0] == "call" and INDEX_FN.search(e[1]) and len(e[2]) == 2:
+        base, rng = e[2]
+        inner = window(fn, base)
+        if rng[0] == "agg":
+            kind = str(rng[1])
+            zero = ((), 0)
+            def L(x):
+                l, c = pred.lin(x, fn)
+                return (tuple(sorted(l.items())), c)
+            if "RangeFull" in kind:
+                st, en = zero, None
+            elif "RangeFrom" in kind:
+                st, en = L(rng[2][0]), None
+            elif "RangeTo" in kind and "Inclusive" not in kind:
+                st, en = zero, L(rng[2][0])
+            elif "core::ops::Range" in kind and len(rng[2]) == 2:
+                st, en = L(rng[2][0]), L(rng[2][1])
+            else:
+                return None
+            if inner is None:
+                return None
+            b, ist, ien = inner
+            if ist != ((), 0):
+                # nested window: offsets add (only constants supported)
+                if not ist[0] and not st[0]:
+                    st = ((), st[1] + ist[1])
+                    if en is not None and not en[0]:
+                        en = ((), en[1] + ist[1])
+                else:
+                    return None
+            return (b, st, en)
+        return None
+    if isinstance(e, tuple) and e[0] == "call" and (e[1] in pred.TRANSPARENT_CALLS or e[1].endswith("::as_mut") or e[1].endswith("as core::ops::DerefMut>::deref_mut")):
+        return window(fn, e[2][0])
+    if isinstance(e, tuple) and e[0] == "call" and "try_from" in e[1] or (isinstance(e, tuple) and e[0] == "call" and e[1].endswith("::unwrap")):
+        return window(fn, e[2][0])
+    return (pred.canon(e, fn), ((), 0), None)
+
+
+# ------------------------------------------------------------------ iterator loops
+
+
+def iter_loops(fn):
+    """Recognise `for pat in <iterator expr>` loops: returns a list of dicts with the `next` call,
+    the adaptor chain (callee names from the iterator source to next), the canonical sources,
+    the Some / None successor blocks and the set of exit edges from the body."""
+    out = []
+    for c in fn.calls():
+        if not (c.callee and c.callee.endswith("Iterator::next")) and not c.name().endswith("::next"):
+            continue
+        it = fn.expr(c.args[0])
+        var = None
+        for s in walk(it):
+            if s[0] == "var":
+                var = s[1]
+        chain = []
+        sources = []
+        root = it
+        if var is not None:
+            ds = [d for d in fn.defs().get(var, []) if d[2]]
+            if len(ds) == 1 and ds[0][1] != "t":
+                root = fn.rvalue_expr(fn.blocks[ds[0][0]]["s"][ds[0][1]][2])
+            elif len(ds) == 1:
+                root = fn.local_expr(var) if fn.single_def(var) else ("call", mir.Call(fn, ds[0][0], fn.term(ds[0][0])).name(), tuple(fn.expr(a) for a in mir.Call(fn, ds[0][0], fn.term(ds[0][0])).args), (ds[0][0],))
+        for s in walk(root):
+            if s[0] == "call":
+                chain.append(s[1])
+            elif s[0] in ("arg", "field", "var", "kconst") :
+                pass
+        for s in walk(root):
+            if s[0] == "call" and (s[1].endswith("::iter") or s[1].endswith("::iter_mut") or s[1].endswith("::chunks") or s[1].endswith("chunks_mut") or s[1].endswith("chunks_exact") or s[1].endswith("chunks_exact_mut")):
+                sources.append((s[1].split("::")[-1], pred.canon(s[2][0], fn)))
+            if s[0] == "agg" and "core::ops::Range" in str(s[1]):
+                sources.append(("range", tuple(pred.canon(a, fn) for a in s[2])))
+        nb = c.target
+        some = none = None
+        if nb is not None and fn.term(nb)[0] == "sw":
+            tt = fn.term(nb)
+            for v, bb in tt[2]:
+                if v == 1:
+                    some = bb
+                elif v == 0:
+                    none = bb
+        body = set()
+        if some is not None:
+            succ = fn.cfg()[0]
+            st = [some]
+            while st:
+                x = st.pop()
+                if x in body or x == c.bb:
+                    continue
+                body.add(x)
+                st.extend(succ[x])
+        exits = []
+        if some is not None and none is not None:
+            # blocks reachable from `some` without passing the next-call block, that cannot get back to it
+            for x in sorted(body):
+                if not fn.reaches(x, c.bb) and x in fn.ret_reaching():
+                    exits.append(x)
+        out.append({"call": c, "chain": chain, "sources": sources, "some": some, "none": none, "body": body, "early_exits": exits, "root": root})
+    return out
+
+
+def var_defs(fn, local):
+    """Expressions of every whole-place definition of a (multi-def) local."""
+    out = []
+    for b, i, w in fn.defs().get(local, []):
+        if not w:
+            out.append((b, ("partial",)))
+        elif i == "t":
+            c = mir.Call(fn, b, fn.term(b))
+            out.append((b, ("call", c.name(), tuple(fn.expr(a) for a in c.args), (b,))))
+        else:
+            out.append((b, fn.rvalue_expr(fn.blocks[b]["s"][i][2])))
+    return out
